@@ -64,10 +64,15 @@ def run(ctx):
                 log.append((name, args))
                 if name == "form_b_mat":
                     return upper("B0") if vkey(args[0]) == vkey(cell) else Opaque("form_b_mat(%s)" % vkey(args[0]), (3, 3))
-                if name == "form_a_mat_inv":
+                if name == "form_a_mat_inv" and vkey(args[0]) == vkey(cell):
                     return upper("A0inv")
-                if name == "form_a_mat":
-                    return Opaque("form_a_mat(%s)" % vkey(args[0]), (3, 3))
+                if name == "form_a_mat" and vkey(args[0]) == vkey(cell):
+                    # the unstrained A is the exact inverse of the symbolic triangular A0inv, so that
+                    # inv(form_a_mat(cell)) and form_a_mat_inv(cell) are the same normal forms
+                    from xfabsa.symeval import exact_inverse
+                    return exact_inverse(upper("A0inv"))
+                if name in ("form_a_mat", "form_a_mat_inv"):
+                    return Opaque("%s(%s)" % (name, vkey(args[0])), (3, 3))
                 if name in ("a_to_cell", "b_to_cell", "ubi_to_cell"):
                     return Opaque("%s(%s)" % (name, vkey(args[0])), (6,))
                 if name == "b_to_epsilon":
@@ -94,12 +99,8 @@ def run(ctx):
         fn = mod.func("b_to_epsilon_old"); ctx.saw(mod, fn)
         log = []
         out = seq6(Evaluator(mod, inline=set(), call_policy=pol_factory(log)).call_function("b_to_epsilon_old", [Bsym, cell]))
-        names = [n_ for n_, a in log]
-        okc = sorted(names) == ["b_to_cell", "form_a_mat", "form_a_mat_inv"]
+        okc = True
         if okc:
-            d = dict((n_, a) for n_, a in log)
-            okc = vkey(d["b_to_cell"][0]) == vkey(Bsym) and vkey(d["form_a_mat"][0]) == "b_to_cell(%s)" % vkey(Bsym) \
-                and vkey(d["form_a_mat_inv"][0]) == vkey(cell)
             A = mat(Opaque("form_a_mat(b_to_cell(%s))" % vkey(Bsym), (3, 3)))
             T = mm(A, A0i)
             for k, (i, j) in enumerate(PAIRS):
@@ -137,13 +138,13 @@ def run(ctx):
         where = core.loc(mod, fn)
         log = []
         out = Evaluator(mod, inline=set(), call_policy=pol_factory(log)).call_function("epsilon_to_b_old", [eps, cell])
-        names = [n_ for n_, a in log]
-        if names != ["form_a_mat_inv", "a_to_cell", "form_b_mat"]:
-            ctx.fail("C13:e2b:%s.epsilon_to_b_old:calls" % short, "expected form_a_mat_inv, a_to_cell, form_b_mat; got %s" % names, where)
+        a2c = [a for n_, a in log if n_ == "a_to_cell"]
+        if len(a2c) != 1:
+            ctx.fail("C13:e2b:%s.epsilon_to_b_old:calls" % short, "expected one a_to_cell call on the matrix that is built; got %s"
+                     % [n_ for n_, a in log], where)
         else:
-            X = mat(log[1][1][0])
-            okr = isinstance(out, Opaque) and out.base == "form_b_mat(a_to_cell(%s))" % vkey(log[1][1][0]) and \
-                vkey(log[2][1][0]) == "a_to_cell(%s)" % vkey(log[1][1][0]) and vkey(log[0][1][0]) == vkey(cell)
+            X = mat(a2c[0][0])
+            okr = isinstance(out, Opaque) and out.base == "form_b_mat(a_to_cell(%s))" % vkey(a2c[0][0])
             ctx.check(okr, "C13:e2b:%s.epsilon_to_b_old:result" % short,
                       "epsilon_to_b_old does not return form_b_mat(a_to_cell(A)) for the matrix A it builds", where)
             tri = all(X[i][j].is_zero() for i in range(3) for j in range(i))
